@@ -4,5 +4,6 @@ CONSTANTS
   Mode = "nested"
   Depth = 4
   DeepAll = FALSE
+  FinRule = "fixpoint"
 INVARIANT GenInv
 CHECK_DEADLOCK FALSE
